@@ -35,7 +35,7 @@ def main(tier="quick"):
     import enginemc
     step("EngineMC", lambda: enginemc.cached(tier))
     import c11
-    step("Literals", lambda: c11.cached(1 if tier == "quick" else 2))
+    step("Literals", lambda: c11.cached(1))
     import driverprops
     step("Driver/history", lambda: driverprops.cached_family("history", 3 if tier == "quick" else 4, 0))
     step("Driver/tree", lambda: driverprops.cached_family("tree", 3, 1 if tier == "quick" else 2))
